@@ -513,12 +513,21 @@ type pipeAddr struct{ id int }
 func (a *pipeAddr) Network() string { return "pipe" }
 func (a *pipeAddr) String() string  { return fmt.Sprintf("client-%d", a.id) }
 
+// pipeConn gives the in-memory connection the observable behaviour of a TCP connection where the
+// server code can tell the difference: closing an already closed connection fails with net.ErrClosed.
 type pipeConn struct {
 	net.Conn
 	remote net.Addr
+	closed atomic.Bool
 }
 
 func (c *pipeConn) RemoteAddr() net.Addr { return c.remote }
+func (c *pipeConn) Close() error {
+	if c.closed.Swap(true) {
+		return &net.OpError{Op: "close", Net: "tcp", Addr: c.remote, Err: net.ErrClosed}
+	}
+	return c.Conn.Close()
+}
 
 // The hook variable is set once per process; events are routed to the scenario they belong to (a late
 // goroutine of a finished scenario must not write into the next one).
